@@ -389,7 +389,7 @@ def check(run):
     # the most specific failing inputs first: a raw-peer session that names the envelope and its place in the segmentation, then other
     # sessions, then model/code disagreements, then a crash / timeout of the harness process
     # (failures of the two classes that are recorded as known findings come last should their lines be missing from known_findings.jsonl)
-    findings.sort(key=lambda f: (5 if f.get("class") in KNOWN_CLASSES else 0 if f.get("detail") else
+    findings.sort(key=lambda f: (5 if f.get("class") in KNOWN_CLASSES else -1 if f.get("class") == "wire-format" and f["kind"] == "session" else 0 if f.get("detail") else
                                  1 if f["kind"] == "session" and f.get("mode") in ("rawclient", "rawserver") else
                                  2 if f["kind"] == "session" else 3 if f["kind"] == "correspondence" else 4))
 
